@@ -11,7 +11,7 @@ for d in ${@:-$(ls seeded)}; do
   if ! git -C /repo apply --check $dir/patch.diff 2>/dev/null; then echo "$d: patch no longer applies (code changed since)"; continue; fi
   git -C /repo apply $dir/patch.diff
   out=$(./check $P --tier quick 2>&1); rc=$?
-  git -C /repo checkout -- .; python3 gen/extract.py >/dev/null 2>&1
+  git -C /repo checkout -- .; python3 gen/extract.py >/dev/null 2>&1; git checkout -- evidence/$P.json 2>/dev/null
   n=$((n+1))
   if echo "$out" | grep -q "^VIOLATION property=$P"; then echo "$d: detected ($(echo "$out" | grep -m1 'violation:' | cut -c20-120))";
   else echo "$d: MISSED (rc=$rc)"; missed=$((missed+1)); fi
